@@ -103,6 +103,8 @@ def run_case(case, seed):
         special += [case['par']['domain'], -case['par']['domain']]
     if fam in ('Gauss', 'PeriodicGauss'):
         special += [case['par']['mean']]
+    if fam == 'PeriodicGauss':
+        special += [case['par']['mean'] + 4.0, case['par']['mean'] - 5.0, case['par']['mean'] + 7.5]      # beyond half a period / a full period away from the mean
     if fam == 'Bspline':
         special = [0.15, 1.0, -1.0]          # knots are excluded for splines (one-sided derivatives)
         special = [v for v in special if all(abs(v - kn) > 1e-3 for kn in case['par']['knots'])]
